@@ -127,6 +127,8 @@ func ruleC04(c *Check) {
 	}
 	c.req(nBurn >= 2, "C04.1", "slash-sites", token.NoPos, fmt.Sprintf("%d entry-level slash variants (respond, end-block)", nBurn))
 	c.expiryScanGuard("C04.1")
+	c.schemaPredicate("C04.1", "types.ValidateResponseOutput", "types.OutputSchema")
+	c.paramGettersExact("C04.3", "KeySlashFraction", "KeyBaseDenom", "KeyMinDepositMultiple", "KeyMinDeposit")
 	// the expiry scan is skipped for a batch marked COMPLETED: that mark may only be written when no request of the batch is pending
 	c.contextFieldRules("C04.7", map[string]bool{"batchstate": true, "state": true})
 
